@@ -131,6 +131,14 @@ def generic_main(mod, tier, seed, replay, t0, extra_evidence=None, pre_violation
     proof_ok = audit["ok"] and not bad_hyg
     if not proof_ok:
         notes.append("proof audit failed")
+    # the runner the cases are judged by must be the one compiled from the current sources: a stale .vo
+    # (its .v no longer compiles) would silently judge with an old model
+    for tgt in getattr(mod, "COQ_TARGETS", []):
+        rcq, _, _ = C.sh(["make", "-q", tgt], cwd=C.COQ, timeout=600)
+        if rcq != 0:
+            print("MACHINERY ERROR: %s is not up to date with its sources (the model does not compile):\n%s"
+                  % (tgt, audit["log"][-1500:]))
+            return 2
 
     # 2. harness
     ok, out, secs = C.build_harness()
